@@ -183,7 +183,11 @@ def quoted_strings(d):
             "a\nGROUP = g\nb", "l1\nEnd\n", "text\nEND;\nmore", "q\n  end  \nr",
             "first\r\nEND\r\nlast", "k = v\nb = 2", "tail\nEND", "END\nhead",
             "Filter #3 is -\n   broken", "a # b -\r\n c", "Sample #2 of the north-\nern",
-            "# ---- geometry ----", "rule -----\nnext", "end.cub", "END-TO-END"]
+            "# ---- geometry ----", "rule -----\nnext", "end.cub", "END-TO-END",
+            # every reserved word and value keyword, in several letter cases
+            "BEGIN_GROUP", "begin_object", "Begin_Group", "BEGIN_OBJECT", "GROUP", "Object",
+            "End_Object", "END_GROUP", "end", "End", "true", "False", "null", "Null",
+            "{}", "{0}", "%s"]
     pool = [s for s in pool if all(c in cs for c in s)]
     longs = [s for s in ["x" * 4100, "word " * 900, "y" * 4094, "z" * 4095, "w" * 4096,
                          "line one\n" * 450] if all(c in cs for c in s)]
